@@ -236,9 +236,8 @@ func (i *Int) EuclideanDivVarTime(remainder *Nat, numerator, denominator *Int) (
 		qan.Neg(&qa)
 		qOut.Set(&qan)
 	}
-	i.Set(&qOut)
 	// A negative numerator shorter than the denominator still has the quotient -1 or 1: keep at least one bit.
-	i.Resize(max(1, min(numerator.AnnouncedLen(), numerator.AnnouncedLen()-denominator.TrueLen()+2)))
+	qOut.Resize(max(1, min(numerator.AnnouncedLen(), numerator.AnnouncedLen()-denominator.TrueLen()+2)))
 
 	if remainder != nil {
 		var rOut Int
@@ -256,6 +255,8 @@ func (i *Int) EuclideanDivVarTime(remainder *Nat, numerator, denominator *Int) (
 		remainder.Abs(&rOut)
 		remainder.Resize(denominator.TrueLen())
 	}
+	// i may alias the numerator or the denominator: write it only after both have been read.
+	i.Set(&qOut)
 
 	return ct.True
 }
@@ -317,7 +318,6 @@ func (i *Int) DivVarTime(remainder, numerator, denominator *Int) (ok ct.Bool) {
 	qInt.SetNat(&q)
 	qInt.Neg(qs)
 	qInt.Resize(max(0, min(numerator.AnnouncedLen(), numerator.AnnouncedLen()-denominator.TrueLen()+2)))
-	i.Set((*Int)(&qInt))
 
 	if remainder != nil {
 		var rInt saferith.Int
@@ -326,6 +326,8 @@ func (i *Int) DivVarTime(remainder, numerator, denominator *Int) (ok ct.Bool) {
 		rInt.Resize(denominator.TrueLen())
 		remainder.Set((*Int)(&rInt))
 	}
+	// i may alias the numerator or the denominator: write it only after both have been read.
+	i.Set((*Int)(&qInt))
 
 	return ct.True
 }
